@@ -502,9 +502,7 @@ M("c03-revert-F33-shared-alt-lists", ["C04", "C03"], "break",
   [("yaep.c", "      child = (i == disp ? NULL : anode->val.anode.children[i]);\n      child_place = &node->val.anode.children[i];", "      child = NULL;\n      child_place = &node->val.anode.children[i];\n      if (i != disp)\n	*child_place = anode->val.anode.children[i];\n      else")],
   "copy_anode/node-store")
 M("t3-revert-F34-skip-cost-as-backward-distance", ["C06", "C12"], "break",
-  [("yaep.c", "	      push_recovery_state (state.last_original_pl_el, cost + 1,
-				   state.back_toks);", "	      push_recovery_state (state.last_original_pl_el, cost + 1,
-				   cost + 1);")],
+  [("yaep.c", "	      push_recovery_state (state.last_original_pl_el, cost + 1,\n				   state.back_toks);", "	      push_recovery_state (state.last_original_pl_el, cost + 1,\n				   cost + 1);")],
   "error_recovery/first-ignored")
 
 # ---- R8 / R2f (C16, C19) ----------------------------------------------------------------------------
